@@ -1,8 +1,11 @@
 (* C11 Maze: the counter advances by one per step; in a maze whose agent and target are connected (every generated
    maze, see C10; connectivity is preserved by every step) a step is LAST exactly when the target is reached or the
    counter reaches the limit.  From reset: step number T is LAST (never later), and a LAST before step T happens
-   only by reaching the target (never earlier without cause).  time_limit None/0 resolves to rows * cols. *)
-Require Import JV.Base.Prelude JV.Base.JaxIndex JV.Base.Codec JV.Base.TimeStep JV.Model.MazeGen JV.Model.Maze JV.Proofs.MazeGen JV.Proofs.Maze.
+   only by reaching the target (never earlier without cause).  time_limit None/0 resolves to rows * cols.
+   [C11_Maze_generated_episode]: the same with NO connectivity hypothesis for every instance of the shipped
+   RandomGenerator (all sizes, all valid generator draws -- at least gen_fuel cols rows <= rows*cols of them -- and position draws), by the
+   unconditional connectivity theorem of the recursive-division generator (C10, Proofs/Maze_GenTotal.v). *)
+Require Import JV.Base.Prelude JV.Base.JaxIndex JV.Base.Codec JV.Base.TimeStep JV.Model.MazeGen JV.Model.Maze JV.Proofs.MazeGen JV.Proofs.Maze JV.Proofs.Maze_GenTotal.
 Theorem C11_Maze_last_iff rows cols T s a :
   Physical rows cols s -> linked rows cols s -> 0 <= a < 4 ->
   let s' := fst (step rows cols T s a) in
@@ -20,6 +23,20 @@ Theorem C11_Maze_episode rows cols T s0 acts a :
   (T <= n + 1 -> st t = LAST).
 Proof. exact (episode_limit rows cols T s0 acts a). Qed.
 Print Assumptions C11_Maze_episode.
+Theorem C11_Maze_generated_episode rows cols T draws i1 i2 acts a :
+  1 <= rows -> 1 <= cols ->
+  draws_valid (gen_start cols rows) draws = true -> gen_fuel cols rows <= zlen draws ->
+  let w := maze (fst (generate_maze cols rows draws)) in
+  valid_draw rows cols w i1 i2 = true ->
+  Forall (fun a => 0 <= a < 4) acts -> 0 <= a < 4 ->
+  let s := run rows cols T (fst (gen_init rows cols w i1 i2)) acts in
+  let n := zlen acts in
+  let t := snd (step rows cols T s a) in
+  (n + 1 = T -> st t = LAST) /\
+  (n + 1 < T -> st t = LAST -> at_target (fst (step rows cols T s a))) /\
+  (T <= n + 1 -> st t = LAST).
+Proof. exact (generated_episode_limit rows cols T draws i1 i2 acts a). Qed.
+Print Assumptions C11_Maze_generated_episode.
 Theorem C11_Maze_linked_preserved rows cols T s a :
   Physical rows cols s -> 0 <= a < 4 -> linked rows cols s -> linked rows cols (fst (step rows cols T s a)).
 Proof. exact (step_linked rows cols T s a). Qed.
